@@ -7,9 +7,9 @@ package main
 // custom stores are dumped.  Against the Lean model `Tx.deliverTx`.
 
 import (
+	"fmt"
 	txtypes "github.com/cosmos/cosmos-sdk/types/tx"
 	burntypes "github.com/medibloc/panacea-core/v2/x/burn/types"
-	"fmt"
 	"math/rand"
 	"strings"
 	"time"
@@ -20,6 +20,7 @@ import (
 	authtypes "github.com/cosmos/cosmos-sdk/x/auth/types"
 	"github.com/cosmos/cosmos-sdk/x/authz"
 	aoltypes "github.com/medibloc/panacea-core/v2/x/aol/types"
+	didtypes "github.com/medibloc/panacea-core/v2/x/did/types"
 	pnfttypes "github.com/medibloc/panacea-core/v2/x/pnft/types"
 )
 
@@ -62,6 +63,12 @@ func innerTok(e *txEnv, m sdk.Msg) string {
 		return fmt.Sprintf("pnft burnPNFT %s %s %s", hxs(m.DenomId), hxs(m.Id), e.addr(m.Burner))
 	case *pnfttypes.MsgDeleteDenomRequest:
 		return fmt.Sprintf("pnft deleteDenom %s %s", hxs(m.Id), e.addr(m.Remover))
+	case *didtypes.MsgCreateDIDRequest:
+		return fmt.Sprintf("did create %s %s %s %s %s %s", hxs(m.Did), docTok(m.Document), hx(docBytes(m.Document)), hxs(m.VerificationMethodId), hx(m.Signature), e.addr(m.FromAddress))
+	case *didtypes.MsgUpdateDIDRequest:
+		return fmt.Sprintf("did update %s %s %s %s %s %s", hxs(m.Did), docTok(m.Document), hx(docBytes(m.Document)), hxs(m.VerificationMethodId), hx(m.Signature), e.addr(m.FromAddress))
+	case *didtypes.MsgDeactivateDIDRequest:
+		return fmt.Sprintf("did deactivate %s %s %s %s", hxs(m.Did), hxs(m.VerificationMethodId), hx(m.Signature), e.addr(m.FromAddress))
 	}
 	panic(fmt.Sprintf("innerTok: %T", m))
 }
@@ -157,7 +164,7 @@ func (e *txEnv) deliver(p txPlan) {
 		}
 		_, seq := e.c.acctNumSeq(s.Acct.Addr)
 		valid := 1
-		if s.BadSig {
+		if s.BadSig || s.ForeignKey != nil {
 			valid = 0
 		}
 		sg = append(sg, fmt.Sprintf("%s:%d:%d", hx(s.Acct.Addr), valid, int64(seq)+s.SeqOff))
@@ -306,6 +313,102 @@ func monC15FeeDenoms(s *Stream) {
 		}
 		return "pass"
 	}))
+}
+
+// txImpersonation: a fixed history for C02's "signed by": accounts that exist on chain but have never signed (no public
+// key recorded) are named as signer by somebody else, who supplies an own public key and signature over the victim's
+// account number and sequence — as listed writer (AddRecord), as topic owner (AddWriter, DeleteWriter, CreateTopic).
+func txImpersonation(s *Stream) {
+	e := newTxEnv(s)
+	s.Emit("reset", "-")
+	var al []string
+	for _, a := range e.accts {
+		al = append(al, fmt.Sprintf("%s:%d", hx(a.Addr), 1000))
+	}
+	al[len(al)-1] = hx(e.accts[4].Addr) + ":none"
+	s.Emit("tx.genesis "+strings.Join(al, ","), "-")
+	s.Emit(fmt.Sprintf("now %d", e.c.Time.UnixNano()), "-")
+	O, V, S, Q := e.accts[0], e.accts[1], e.accts[2], e.accts[3]
+	run := func(m sdk.Msg, sp ...SignerSpec) {
+		e.deliver(txPlan{msgs: []sdk.Msg{m}, signers: sp, fee: 1, mode: signing.SignMode_SIGN_MODE_DIRECT})
+		e.state()
+	}
+	// the stranger in the name of the silent owner Q: create a topic, list itself
+	run(&aoltypes.MsgCreateTopicRequest{TopicName: "q", Description: "d", OwnerAddress: Q.Bech()}, SignerSpec{Acct: Q, ForeignKey: S})
+	run(&aoltypes.MsgCreateTopicRequest{TopicName: "t", Description: "d", OwnerAddress: O.Bech()}, SignerSpec{Acct: O})
+	run(&aoltypes.MsgAddWriterRequest{TopicName: "t", Moniker: "m", WriterAddress: V.Bech(), OwnerAddress: O.Bech()}, SignerSpec{Acct: O})
+	// the stranger appends in its own name, then in the listed (silent) writer's name, then with a fee payer slot
+	run(&aoltypes.MsgAddRecordRequest{TopicName: "t", Key: []byte("k"), Value: []byte("v"), WriterAddress: S.Bech(), OwnerAddress: O.Bech()}, SignerSpec{Acct: S})
+	run(&aoltypes.MsgAddRecordRequest{TopicName: "t", Key: []byte("k"), Value: []byte("v"), WriterAddress: V.Bech(), OwnerAddress: O.Bech()}, SignerSpec{Acct: V, ForeignKey: S})
+	run(&aoltypes.MsgAddRecordRequest{TopicName: "t", Key: []byte("k"), Value: []byte("v"), WriterAddress: V.Bech(), OwnerAddress: O.Bech(), FeePayerAddress: S.Bech()},
+		SignerSpec{Acct: S}, SignerSpec{Acct: V, ForeignKey: S})
+	// ... and changes the writer list in the name of the silent owner Q's topic (Q creates it properly first)
+	run(&aoltypes.MsgCreateTopicRequest{TopicName: "q2", Description: "d", OwnerAddress: Q.Bech()}, SignerSpec{Acct: Q})
+	run(&aoltypes.MsgAddWriterRequest{TopicName: "q2", Moniker: "m", WriterAddress: S.Bech(), OwnerAddress: Q.Bech()}, SignerSpec{Acct: Q, ForeignKey: S})
+	// the real writer appends
+	run(&aoltypes.MsgAddRecordRequest{TopicName: "t", Key: []byte("k"), Value: []byte("v"), WriterAddress: V.Bech(), OwnerAddress: O.Bech()}, SignerSpec{Acct: V})
+	e.c.End()
+	e.c.Commit()
+}
+
+// txDidSequence: a fixed history of DID messages delivered as real transactions (ante chain, message router, one
+// cache per transaction): proofs made over one sequence number used twice inside one transaction — the same message
+// twice, two alternatives, an update followed by a deactivation over the stale number — and a legitimate chain of two
+// operations in one transaction.  C04: a proof is consumed by its acceptance, also against the sequence left by the
+// earlier messages of the same transaction.
+func txDidSequence(s *Stream) {
+	e := newTxEnv(s)
+	s.Emit("reset", "-")
+	var al []string
+	for _, a := range e.accts {
+		al = append(al, fmt.Sprintf("%s:%d", hx(a.Addr), 1000))
+	}
+	al[len(al)-1] = hx(e.accts[4].Addr) + ":none"
+	s.Emit("tx.genesis "+strings.Join(al, ","), "-")
+	s.Emit(fmt.Sprintf("now %d", e.c.Time.UnixNano()), "-")
+	A, B := e.accts[0], e.accts[1]
+	de := &didEnv{s: s, seen: e.seen, sigs: map[string]bool{}}
+	k, k2, k3 := newDidKey("txseq-1"), newDidKey("txseq-2"), newDidKey("txseq-3")
+	did := didtypes.NewDID(k.pub)
+	vmID := did + "#key1"
+	vmOf := func(id string, key *didKey) *didtypes.VerificationMethod {
+		return &didtypes.VerificationMethod{Id: id, Type: didtypes.ES256K_2019, Controller: did, PublicKeyBase58: key.b58}
+	}
+	docWith := func(extra ...*didtypes.VerificationMethod) *didtypes.DIDDocument {
+		vms := append([]*didtypes.VerificationMethod{vmOf(vmID, k)}, extra...)
+		d := didtypes.NewDIDDocument(did, didtypes.WithVerificationMethods(vms),
+			didtypes.WithAuthentications([]didtypes.VerificationRelationship{rel(vmID)}))
+		return &d
+	}
+	d1, d2, d3 := docWith(), docWith(vmOf(did+"#key2", k2)), docWith(vmOf(did+"#key3", k3))
+	upd := func(d *didtypes.DIDDocument, seq uint64, from *Acct) sdk.Msg {
+		return &didtypes.MsgUpdateDIDRequest{Did: did, Document: d, VerificationMethodId: vmID, Signature: de.sign(k, d, seq), FromAddress: from.Bech()}
+	}
+	deact := func(seq uint64, from *Acct) sdk.Msg {
+		return &didtypes.MsgDeactivateDIDRequest{Did: did, VerificationMethodId: vmID, Signature: de.sign(k, &didtypes.DIDDocument{Id: did}, seq), FromAddress: from.Bech()}
+	}
+	run := func(signer *Acct, ms ...sdk.Msg) {
+		e.deliver(txPlan{msgs: ms, signers: []SignerSpec{{Acct: signer}}, fee: 1, mode: signing.SignMode_SIGN_MODE_DIRECT})
+		e.state()
+	}
+	run(A, &didtypes.MsgCreateDIDRequest{Did: did, Document: d1, VerificationMethodId: vmID, Signature: de.sign(k, d1, 0), FromAddress: A.Bech()})
+	run(A, upd(d2, 0, A)) // sequence 0 -> 1
+	u := upd(d3, 1, B)
+	run(B, u, u)                         // the very same message twice in one transaction
+	run(B, upd(d3, 1, B), upd(d1, 1, B)) // two alternatives over sequence 1
+	run(B, u)                            // 1 -> 2
+	run(B, u)                            // replay in a later transaction of the same block
+	dm := deact(2, A)
+	run(A, dm, dm)
+	run(A, upd(d2, 2, A), deact(2, A)) // the deactivation was made over the stale number
+	e.c.End()
+	e.c.Commit()
+	e.c.Begin(e.c.Time.Add(5 * time.Second))
+	run(B, u)                          // replay in a later block
+	run(A, upd(d2, 2, A), deact(3, A)) // a legitimate chain of two operations in one transaction
+	run(B, dm)
+	e.c.End()
+	e.c.Commit()
 }
 
 func txHistory(s *Stream, rng *rand.Rand, steps int) {
@@ -481,6 +584,11 @@ func txHistory(s *Stream, rng *rand.Rand, steps int) {
 				sp.Missing = true
 			case 3:
 				sp.Acct = pick() // somebody else signs in this slot
+			case 4, 5:
+				// somebody else's key and signature in the name of this signer (its address, number and sequence)
+				if k := pick(); k != sp.Acct {
+					sp.ForeignKey = k
+				}
 			}
 			p.signers = append(p.signers, sp)
 		}
@@ -508,6 +616,8 @@ func init() {
 		s := NewStream(dir, "tx")
 		defer s.Close(dir, "tx")
 		monC15FeeDenoms(s)
+		txImpersonation(s)
+		txDidSequence(s)
 		for h := 0; h < n; h++ {
 			txHistory(s, rng, 15+rng.Intn(25))
 		}
